@@ -292,12 +292,12 @@ func c09Diff(want, got string) string {
 
 func init() {
 	core.Register(&core.Prop{
-		ID:    "C09",
-		Level: "exploration",
-		Rule: "all 399 nestings of depth 1-3 of {for, user-function call (with and without parameters), partial with data, contentFor+contentOf with data, block helper running its block with a new context plus data, contentFor declared outside and replayed by contentOf inside a for body / inside a function body}; at every level random let statements (fresh and shadowing) and probes of the names a, b, c before, inside and after each construct, binders (loop variable, parameter, data key) drawn from names that may shadow outer ones, unique value tokens; 40 (quick) / 4000 (thorough) random placements per nesting, every third with a sibling construct. Oracle: an environment-chain reference model (construct pushes a scope, let binds innermost, lookup walks outward, exit pops) predicts every probe. Non-trivial = every program (distinct by hash).",
-		Assume:  []string{"loops have one iteration (whether a let of iteration 1 is visible at the start of iteration 2 is unspecified)", "functions are called where they are defined, so static and dynamic visibility of outer names coincide", "plain assignment to outer variables is not generated"},
-		Batches: batchesQT(8, 32),
-		Run:     c09Run,
+		ID:         "C09",
+		Level:      "exploration",
+		Rule:       "all 399 nestings of depth 1-3 of {for, user-function call (with and without parameters), partial with data, contentFor+contentOf with data, block helper running its block with a new context plus data, contentFor declared outside and replayed by contentOf inside a for body / inside a function body}; at every level random let statements (fresh and shadowing) and probes of the names a, b, c before, inside and after each construct, binders (loop variable, parameter, data key) drawn from names that may shadow outer ones, unique value tokens; 40 (quick) / 4000 (thorough) random placements per nesting, every third with a sibling construct. Oracle: an environment-chain reference model (construct pushes a scope, let binds innermost, lookup walks outward, exit pops) predicts every probe. Non-trivial = every program (distinct by hash).",
+		Assume:     []string{"loops have one iteration (whether a let of iteration 1 is visible at the start of iteration 2 is unspecified)", "functions are called where they are defined, so static and dynamic visibility of outer names coincide", "plain assignment to outer variables is not generated"},
+		Batches:    batchesQT(8, 32),
+		Run:        c09Run,
 		Exhaustive: func(core.Tier) bool { return false },
 	})
 }
